@@ -48,7 +48,7 @@ def list_subchecks(prop):
         "out=[]\n"
         "for s in m.subchecks():\n"
         "    out.append(dict(name=s.name,mode=s.mode,shards=s.shards,x64=s.x64,counts=s.counts,"
-        "minfrac=s.min_nontrivial_frac,doc=s.doc))\n"
+        "minfrac=s.min_nontrivial_frac,doc=s.doc,exhaustive=s.exhaustive))\n"
         "print('@@'+json.dumps(dict(subs=out,rule=getattr(m,'RULE',''),assumptions=getattr(m,'ASSUMPTIONS',[]),"
         "level=getattr(m,'LEVEL','exploration'))))\n"
     )
@@ -186,7 +186,8 @@ def check(prop, tier, seed, only_sub=None, jobs=None):
     per_sub = {}
     for s in subs:
         per_sub[s["name"]] = dict(evaluations=0, excluded=0, nontrivial=set(), labels={}, samples=[],
-                                  failures={}, mode=s["mode"], wall_s=0.0, exhaustive=(s["mode"] == "enum"),
+                                  failures={}, mode=s["mode"], wall_s=0.0,
+                                  exhaustive=(s["mode"] == "enum" and bool(s.get("exhaustive", {}).get(tier, True))),
                                   doc=s["doc"])
     for r in results:
         if r.get("status") != "ok":
